@@ -28,6 +28,13 @@ def run(ctx):
     cverd, cdec = charfam.validate(ctx, cfiles)
     ws = [wlfam.tree_scen(rng, uniform_only=(i % 3 != 0), uncap_prob=0.6, budget=3500 if quick else 15000) for i in range(80 if quick else 900)]
     ws += wlfam.directed_trees(rng)
+    # long recipes (no complete tree): the choices of each single run already bound its password's probability from below
+    for L in (31, 32, 33, 63, 64, 65, 100):
+        for cap in ("random", "one", "all"):
+            for sv in (dict(sep="char", sepChar=wlfam.o("-")), dict(sep="SFDigits1", sepChar=[])):
+                wl = dict(words=[wlfam.o(w) for w in ("one", "two", "three", "kettő")], nolist=0, len=L, cap=cap)
+                wl.update(sv)
+                ws.append(dict(kind="wl", wl=wl, maxTrials=0, failRateOne=0, mode="paths", paths=4, maxLeaves=0, tag="long-paths", reps=0))
     wfiles, wcells, wleaves = wlfam.run_scenarios(ctx, ws, "c06w")
     wverd, wdec = wlfam.validate(ctx, wfiles)
     if (cdec < max(5, ccells // 4) or wdec < max(5, wcells // 5)) and not ctx.violations:
@@ -39,6 +46,8 @@ def run(ctx):
     ctx.sample(vlib.nth_line(wfiles[0], 1))
     ctx.absorb(cverd, cfiles, charfam.describe_char)
     ctx.absorb(wverd, wfiles, wlfam.describe_wl)
+    from checks import drawfam
+    drawfam.draw_conformance(ctx, sorted(charfam.bounds_seen(cfiles) | wlfam.bounds_seen(wfiles)), "the recipes of this check")
     ctx.assumptions += ["C01 (index -> probability 1/n)", "float32 tolerance: 2 ulp (character recipes), 4 ulp (wordlist formula)",
                         "a caller-written separator function that under-reports its own entropy makes the recipe's value a lower bound only"]
     return ("exact max-probability per recipe from %d complete choice trees of the real code (%d leaves) compared by TLC with 2^-Entropy()"
